@@ -15,10 +15,11 @@ func init() {
 	register(&Prop{
 		ID:          "C02",
 		Title:       "Concurrent writes are atomic: linearizable outcomes, no lost updates",
-		Explanation: "Decides the structural shape of the optimistic-concurrency protocol: R02.1 GetAndUpdate reads under mu, re-reads and compares with proto.Equal inside the same exclusive region as save (or holds the lock exclusively throughout), save receives change's result and is guarded by change's nil error; R02.2 every GetFn passed to GetAndUpdate reads a mutex-guarded field of the store on every path to a successful return (so the re-validation compares with the store, not with itself); R02.3 Collection.Delete deletes and publishes under the exclusive lock, guarded by a pointer-identity comparison between the value reloaded in that region and the very value the preconditions were evaluated on, in a bounded retry loop; R02.4 guarded-field discipline for Value/Collection; R02.5 preconditions in the change function bind to its `old` parameter and GetAndUpdate passes the first read as `old`. Does NOT decide linearizability of histories, schedules, fairness of the retry loop or ABA.",
+		Explanation: "Decides the structural shape of the optimistic-concurrency protocol: R02.1 GetAndUpdate reads under mu, re-reads and compares with proto.Equal inside the same exclusive region as save (or holds the lock exclusively throughout), save receives change's result and is guarded by change's nil error; R02.2 every GetFn passed to GetAndUpdate reads a mutex-guarded field of the store on every path to a successful return (so the re-validation compares with the store, not with itself); R02.3 Collection.Delete deletes and publishes under the exclusive lock, guarded by a pointer-identity comparison between the value reloaded in that region and the very value the preconditions were evaluated on, in a bounded retry loop; R02.4 guarded-field discipline for Value/Collection; R02.5 preconditions in the change function bind to its `old` parameter and GetAndUpdate passes the first read as `old`. R02.12 in the change function the expected-value comparison and the expected-check call lie on one path: a write that carries both preconditions is judged by both. Does NOT decide linearizability of histories, schedules, fairness of the retry loop or ABA.",
 		Assumptions: []string{"proto.Equal is value equality of messages and false for (nil, non-nil)", "proto.Clone returns a deep copy", "locks identified by access path"},
 		Run:         runC02,
 		Controls: []Control{
+			{Name: "expected-check-only-without-expected-value", File: "pkg/resource/opt.go", Old: "\t\t}\n\t\tif wr.expectedCheck != nil {", New: "\t\t} else if wr.expectedCheck != nil {", Expect: "R02.12"},
 			{Name: "hail-gc-deletes-unconditionally", File: "pkg/trait/hailpb/model.go", Old: "resource.WithAllowMissing(true), resource.WithExpectedValue(hail))", New: "resource.WithAllowMissing(true))", Expect: "R02.10"},
 			{Name: "reread-returns-remembered-message-with-error", File: "pkg/resource/collection.go", Old: "\t\t\t\tif _, exists := c.byId[id]; exists {\n\t\t\t\t\treturn nil, ExpectAbsentPreconditionFailed\n", New: "\t\t\t\tif _, exists := c.byId[id]; exists {\n\t\t\t\t\treturn created, ExpectAbsentPreconditionFailed\n", Expect: "R02.8"},
 			{Name: "value-set-retries", File: "pkg/resource/value.go", Old: "\t_, newValue, err := GetAndUpdate(", New: "\tvar newValue proto.Message\n\tvar err error\n\tfor attempt := 0; attempt < 3 && (attempt == 0 || err != nil); attempt++ {\n\t_, newValue, err = GetAndUpdate(", More: []Edit{{File: "pkg/resource/value.go", Old: "\t\t\tr.changeTime = changeTime\n\t\t},\n\t)\n", New: "\t\t\tr.changeTime = changeTime\n\t\t},\n\t)\n\t}\n"}}, Expect: "R02.7"},
@@ -90,6 +91,8 @@ func runC02(c *an.Ctx) {
 	// and reports Aborted has left its edits behind (E2, shared with R07.1, restricted to interceptor-shaped functions)
 	shareAs(c, "R01.11", "R02.11", r0111, nil) // Delete judges its preconditions on the version it is about to remove, on every attempt (shared with R01.11)
 	c.Min("R02.11", 1)
+	r0212(c, "R02.12")
+	c.Min("R02.12", 1)
 	r0210(c, "R02.10")
 	c.Min("R02.10", 1)
 	runE2(c, "R02.9", isWriteCallback)
@@ -807,6 +810,105 @@ func r028(c *an.Ctx, rule string) {
 }
 
 // isWriteCallback: fn has the shape of a write interceptor - func(old, new proto.Message) - or is a closure inside one.
+// r0212: a write succeeds only if EVERY precondition it carries held for the stored value. In the change function
+// the expected-value comparison and the expected-check call are two independent tests: having passed one of them
+// the other is still evaluated (one of the two evaluations reaches the other in the flow graph). Chained as
+// alternatives (`else if`) a write that carries both is decided by the first alone.
+func r0212(c *an.Ctx, rule string) {
+	fn := mustFunc(c, rule, resPkg, "WriteRequest", "changeFn")
+	if fn == nil {
+		return
+	}
+	var eqB, chkB []*ssa.BasicBlock
+	fromField := func(v ssa.Value, field string) bool {
+		for _, s0 := range an.Sources(v) {
+			for _, s1 := range append([]ssa.Value{s0}, an.SourcesOpaque(s0)...) {
+				switch x := s1.(type) {
+				case *ssa.UnOp:
+					if _, _, f, ok := an.FieldOf(x.X); ok && f == field {
+						return true
+					}
+				case *ssa.Field:
+					if _, _, f, ok := an.FieldOf(x); ok && f == field {
+						return true
+					}
+				case *ssa.FieldAddr:
+					if _, _, f, ok := an.FieldOf(x); ok && f == field {
+						return true
+					}
+				}
+			}
+		}
+		return false
+	}
+	// (the two tests may live in a helper of the package the change function calls: wherever they are, they are together)
+	for _, f := range c.Prog.FuncsIn(resPkg) {
+		if strings.HasSuffix(c.Prog.RelFile(f.Pos()), "_test.go") {
+			continue
+		}
+		an.Instrs(f, func(in ssa.Instruction) {
+			call, ok := in.(*ssa.Call)
+			if !ok {
+				return
+			}
+			if an.CalleeName(call) == "google.golang.org/protobuf/proto.Equal" {
+				for _, a := range call.Call.Args {
+					if fromField(a, "expectedValue") {
+						eqB = append(eqB, call.Block())
+					}
+				}
+			}
+			if call.Call.StaticCallee() == nil && !call.Call.IsInvoke() && fromField(call.Call.Value, "expectedCheck") {
+				chkB = append(chkB, call.Block())
+			}
+		})
+	}
+	name := an.FuncName(fn)
+	c.SawFunc(name)
+	if len(eqB) == 0 || len(chkB) == 0 {
+		c.Unk(rule, name+"|both preconditions are evaluated", fn.Pos(), "the expected-value comparison or the expected-check call was not found in the package")
+		return
+	}
+	// every function that evaluates one of the two evaluates the other on the same path (Update's change function or
+	// its helper, Delete)
+	byFn := map[*ssa.Function][2][]*ssa.BasicBlock{}
+	var order []*ssa.Function
+	for _, b := range eqB {
+		e, seen := byFn[b.Parent()]
+		if !seen {
+			order = append(order, b.Parent())
+		}
+		e[0] = append(e[0], b)
+		byFn[b.Parent()] = e
+	}
+	for _, b := range chkB {
+		e, seen := byFn[b.Parent()]
+		if !seen {
+			order = append(order, b.Parent())
+		}
+		e[1] = append(e[1], b)
+		byFn[b.Parent()] = e
+	}
+	for _, f := range order {
+		e := byFn[f]
+		ok := false
+		for _, a := range e[0] {
+			for _, b := range e[1] {
+				if blockReaches(a, b) || blockReaches(b, a) {
+					ok = true
+				}
+			}
+		}
+		top := f
+		for top.Parent() != nil {
+			top = top.Parent()
+		}
+		c.SawFunc(an.FuncName(top))
+		c.Check(ok, rule, an.FuncName(top)+"|both preconditions are evaluated", f.Pos(), "the expected-value comparison and the expected-check call lie on one path",
+			"the expected-value comparison and the expected-check call exclude each other (or only one of them is made here): a write carrying both options is decided by one of them, and succeeds although the stored value fails the other")
+	}
+}
+
 func isWriteCallback(fn *ssa.Function) bool {
 	for f := fn; f != nil; f = f.Parent() {
 		sig := f.Signature
